@@ -148,7 +148,7 @@ def run(ctx):
             sidx = [i for i, (_, t) in enumerate(proto.steps) if isinstance(c.fq(t), S)]
             for parts in ("one-block", "block-per-item", "3-3-1"):
                 rr = rng("C16ts", proto.name, parts)
-                recv = lambda k: [k * 1000 - 3, "item-%d" % k * (1 + k % 3), (None if k % 2 else values.f64(k / 4.0))]
+                recv = lambda k: [k * 1000 - 3, "item-%d" % k * (1 + k % 3), (None if k % 2 else (0, values.f64(k / 4.0)))]
                 vals = {"TsOne": [rr.randrange(-5, 500), [recv(k) for k in range(7)]], "TsOnly": [[rr.choice([0, 127, 128, 2**32, 2**64 - 1, 300, 5]) for _ in range(7)]],
                         "TsTwo": [[rr.randrange(-300, 300) for _ in range(7)], [recv(k) for k in range(7)]]}[proto.name]
                 pt = None if parts == "one-block" else {i: ([1] * 7 if parts == "block-per-item" else [3, 3, 1]) for i in sidx}
